@@ -22,6 +22,19 @@ package main
 // Writes are done one at a time; what the tap records between the call and the arrival of
 // the expected number of packets (or a timeout) is attributed to the call.
 //
+// Entry "client" through an ONVIF back channel (via = "backchannel"): the cases of entry "client"
+// are executed a second time through Client.WritePacketRTP / WritePacketRTCP of a READING client
+// (RequestBackChannels = true, MaxPacketSize = max) that plays, over UDP and over TCP, a stream
+// with a back-channel media (G711, payload type 0) and writes on that media. These clients talk
+// to a second server of the group (same configuration, served stream = 2 regular medias + the
+// back channel) so that they are not readers of the stream the "stream" entry writes to. Their
+// UDP sockets and connection are tapped exactly like the publisher's. Before PLAY such a client
+// sends its own hole-punching packets (regular medias only); they are accounted for before the
+// first write. In the mki groups that server too refuses the first SETUP with 463: the reading
+// client then manages the keys itself and its back-channel packets carry the MKI.
+// The library does not restrict RTCP on a back channel: Client.WritePacketRTCP takes the same
+// path (clientMedia.writePacketRTCP) for any set-up media of a playing or recording client.
+//
 // Entry "multicast" (transport "mcast"): ServerStream.WritePacketRTP/RTCP on a stream whose only
 // reader set it up with multicast delivery (library Client, Protocol = ProtocolUDPMulticast;
 // RTP/SAVP + MIKEY when secure: the library does protect multicast with the stream's outbound
@@ -105,7 +118,8 @@ type c18scn struct {
 	Secure    bool      `json:"secure"`
 	MKI       bool      `json:"mki"`
 	Entry     string    `json:"entry"`
-	Transport string    `json:"transport"` // "udp" | "tcp" | "udp+tcp" (stream) | "mcast" (multicast)
+	Transport string    `json:"transport"`     // "udp" | "tcp" | "udp+tcp" (stream) | "mcast" (multicast)
+	Via       string    `json:"via,omitempty"` // entry "client": "" = a publishing client, "backchannel" = a reading client's back channel
 	Seed      int64     `json:"seed"`
 	Cases     []c18case `json:"cases"`
 }
@@ -113,6 +127,7 @@ type c18scn struct {
 type c18stats struct {
 	writes, drift, late, trunc, noshow, reconnects, failed, sent, over atomic.Int64
 	mcast, mcastSent, reshaped                                         atomic.Int64
+	bcWrites, bcSent                                                   atomic.Int64
 
 	mu      sync.Mutex
 	driftBy map[string]int    // class -> count
@@ -255,6 +270,13 @@ func driveC18(a *args, s *vt.Sink) error {
 				scns = append(scns, &c18scn{Max: k.max, Secure: k.secure, MKI: k.mki, Entry: entry, Transport: t,
 					Seed: seed, Cases: c18shapeCases(cs, seed, a.tier == "thorough")})
 			}
+			if entry == "client" { // the same cases through a reading client's back channel
+				for ti, t := range trs {
+					seed := a.seed*1000003 + int64(gi)*101 + 11 + int64(ti)
+					scns = append(scns, &c18scn{Max: k.max, Secure: k.secure, MKI: k.mki, Entry: entry, Transport: t,
+						Via: c18viaBC, Seed: seed, Cases: c18shapeCases(cs, seed, a.tier == "thorough")})
+				}
+			}
 		}
 		all = append(all, scns)
 	}
@@ -293,6 +315,8 @@ func c18printStats(st *c18stats, ncases, skipped int) {
 		st.writes.Load(), st.failed.Load(), st.sent.Load())
 	fmt.Printf("DRIVER-STAT multicast_writes=%d\n", st.mcast.Load())
 	fmt.Printf("DRIVER-STAT multicast_sent=%d\n", st.mcastSent.Load())
+	fmt.Printf("DRIVER-STAT backchannel_writes=%d\n", st.bcWrites.Load())
+	fmt.Printf("DRIVER-STAT backchannel_sent=%d\n", st.bcSent.Load())
 	var shapes []string
 	for k, n := range st.shapeBy {
 		shapes = append(shapes, fmt.Sprintf("%s:%d", k, n))
@@ -746,6 +770,20 @@ type c18pub struct {
 	reason atomic.Value
 }
 
+const c18viaBC = "backchannel"
+
+// c18bc is a reading client that plays a stream with a back channel and writes on it.
+type c18bc struct {
+	rd     *bed.Reader
+	medi   *description.Media // the back-channel media, as described to the client
+	medIdx int                // its index in the description
+	pt     uint8
+	tap    *bed.Tap
+	seq    uint16
+	dead   atomic.Bool
+	reason atomic.Value
+}
+
 type c18reader struct {
 	rd *bed.Reader
 	ss *gortsplib.ServerSession // server side of the play session
@@ -758,6 +796,8 @@ type c18env struct {
 	srvTap      *bed.Tap
 	readers     map[string]*c18reader
 	pubs        map[string]*c18pub
+	bcBed       *bed.Bed // second server: its stream has a back channel, nobody writes to the stream
+	bcs         map[string]*c18bc
 	accounted   map[*bed.Tap]int
 	seq         [2]uint16 // RTP sequence numbers, per media, shared by everything the group writes
 	mc          *c18mcast
@@ -811,6 +851,10 @@ func c18runGroup(scns []*c18scn, s *vt.Sink, st *c18stats) (trs []*vt.Trace, err
 		e.lastRec = ctx.Session
 		e.recMu.Unlock()
 	}
+	// the back-channel scenarios have a server, clients and taps of their own (backchannel()):
+	// they run beside the others, with an environment of their own, and do not lengthen the group
+	eb := &c18env{max: g.Max, secure: g.Secure, mki: g.MKI, srvTap: bed.NewTap(), readers: map[string]*c18reader{},
+		pubs: map[string]*c18pub{}, accounted: map[*bed.Tap]int{}, st: st}
 	defer func() {
 		for _, p := range e.pubs {
 			p.c.Close()
@@ -818,19 +862,48 @@ func c18runGroup(scns []*c18scn, s *vt.Sink, st *c18stats) (trs []*vt.Trace, err
 		for _, r := range e.readers {
 			r.rd.Close()
 		}
+		for _, b := range eb.bcs {
+			b.rd.Close()
+		}
+		if eb.bcBed != nil {
+			eb.bcBed.Close()
+		}
 		if e.mc != nil {
 			e.mc.close()
 		}
 		e.bd.Close()
 	}()
-	for _, sc := range scns {
-		tr, rerr := e.runScn(sc, s)
-		trs = append(trs, tr)
-		if rerr != nil {
-			return trs, rerr
+	all := make([]*vt.Trace, len(scns))
+	var sideErr error
+	var wg sync.WaitGroup
+	wg.Add(1)
+	go func() {
+		defer wg.Done()
+		for i, sc := range scns {
+			if sc.Via != "" {
+				if all[i], sideErr = eb.runScn(sc, s); sideErr != nil {
+					return
+				}
+			}
+		}
+	}()
+	for i, sc := range scns {
+		if sc.Via == "" {
+			if all[i], err = e.runScn(sc, s); err != nil {
+				break
+			}
 		}
 	}
-	return trs, nil
+	wg.Wait()
+	for _, tr := range all { // in the order of scns
+		if tr != nil {
+			trs = append(trs, tr)
+		}
+	}
+	if err == nil {
+		err = sideErr
+	}
+	return trs, err
 }
 
 // ---- multicast: own server, one multicast reader, receiving-side observation ----------------------
@@ -1137,6 +1210,95 @@ func (e *c18env) publisher(proto string) (*c18pub, error) {
 	return p, nil
 }
 
+// backchannel returns the group's reading client over proto that plays the stream of the second
+// server and writes on its back channel (started on first use, replaced when it terminated).
+func (e *c18env) backchannel(proto string) (*c18bc, error) {
+	if b := e.bcs[proto]; b != nil {
+		if !b.dead.Load() {
+			return b, nil
+		}
+		e.st.reconnects.Add(1)
+		fmt.Fprintf(os.Stderr, "c18: back-channel client %s (max=%d secure=%v mki=%v) terminated: %v; reconnecting\n",
+			proto, e.max, e.secure, e.mki, b.reason.Load())
+		b.rd.Close()
+		delete(e.bcs, proto)
+	}
+	if e.bcBed == nil {
+		cfg := bed.ServerCfg{UDP: true, MaxPacketSize: e.max, Medias: 2, BackChannel: 3, ReportPeriod: time.Hour,
+			ReadTimeout: 120 * time.Second}
+		if e.secure {
+			cfg.TLS = bed.SelfSignedTLS()
+		}
+		cfg.Extra = func(sv *gortsplib.Server) {
+			sv.DisableRTCPSenderReports = true
+			if e.mki {
+				if _, ok := sv.Handler.(*c18handler); !ok {
+					sv.Handler = &c18handler{inner: sv.Handler, refused: map[*gortsplib.ServerSession]bool{}}
+				}
+			}
+		}
+		bd, err := bed.Start(cfg)
+		if err != nil {
+			return nil, fmt.Errorf("c18: back-channel server (max=%d secure=%v mki=%v): %w", e.max, e.secure, e.mki, err)
+		}
+		e.bcBed = bd
+	}
+	b := &c18bc{tap: bed.NewTap()}
+	rd, err := e.bcBed.NewReader(bed.ReaderCfg{Proto: proto, Timeout: 120 * time.Second, Extra: func(c *gortsplib.Client) {
+		c.RequestBackChannels = true
+		c.MaxPacketSize = e.max
+		c.DisableRTCPSenderReports = true
+		// nothing is ever sent to this client: the UDP timeout of a reader must not end it
+		c.InitialUDPReadTimeout = time.Hour
+		c.ListenPacket = b.tap.ListenPacket
+		c.DialContext = func(ctx context.Context, network, addr string) (net.Conn, error) {
+			nc, err := (&net.Dialer{}).DialContext(ctx, network, addr)
+			if err != nil {
+				return nil, err
+			}
+			return b.tap.Conn(nc), nil
+		}
+		if e.secure {
+			c.DialTLSContext = func(ctx context.Context, network, addr string) (net.Conn, error) {
+				nc, err := (&tls.Dialer{Config: bed.ClientTLS()}).DialContext(ctx, network, addr)
+				if err != nil {
+					return nil, err
+				}
+				return b.tap.Conn(nc), nil // clear-text side
+			}
+		}
+		gortsplib.VerifSetClientKnobs(c, nil, time.Hour, time.Hour, 0)
+	}}, "stream", nil)
+	if err != nil {
+		return nil, fmt.Errorf("c18: back-channel reader %s (max=%d secure=%v mki=%v): %w", proto, e.max, e.secure, e.mki, err)
+	}
+	b.rd = rd
+	for i, m := range rd.Desc.Medias {
+		if m.IsBackChannel {
+			b.medi, b.medIdx, b.pt = m, i, m.Formats[0].PayloadType()
+		}
+	}
+	if b.medi == nil {
+		rd.Close()
+		return nil, fmt.Errorf("c18: the description given to the back-channel reader %s has no back channel", proto)
+	}
+	if _, err := rd.C.Play(nil); err != nil {
+		rd.Close()
+		return nil, fmt.Errorf("c18: back-channel play %s (max=%d secure=%v mki=%v): %w", proto, e.max, e.secure, e.mki, err)
+	}
+	go func() {
+		err := rd.C.Wait()
+		b.reason.Store(fmt.Sprint(err))
+		b.dead.Store(true)
+	}()
+	if e.bcs == nil {
+		e.bcs = map[string]*c18bc{}
+	}
+	e.bcs[proto] = b
+	e.settle(b.tap) // the client's own hole-punching packets (UDP, regular medias) were sent before PLAY
+	return b, nil
+}
+
 // settle lets the packets that belong to session establishment (the server's UDP hole-punching
 // packets after RECORD, 12 bytes of RTP / an empty receiver report per port) pass before any
 // write is measured: they are not late packets of a write.
@@ -1175,7 +1337,14 @@ func (e *c18env) runScn(sc *c18scn, s *vt.Sink) (tr *vt.Trace, err error) {
 		}
 	}
 	desc, _ := json.Marshal(sc)
-	tr = s.Begin("c18/"+sc.Entry, string(desc), "max", sc.Max, "secure", sc.Secure, "mki", sc.MKI, "transport", sc.Transport)
+	class, hdr := "c18/"+sc.Entry, []any{"max", sc.Max, "secure", sc.Secure, "mki", sc.MKI, "transport", sc.Transport}
+	if sc.Via != "" {
+		if sc.Via != c18viaBC || sc.Entry != "client" {
+			return s.Begin(class, string(desc)), fmt.Errorf("c18: via %q is not known for entry %q", sc.Via, sc.Entry)
+		}
+		class, hdr = class+"-"+sc.Via, append(hdr, "via", sc.Via)
+	}
+	tr = s.Begin(class, string(desc), hdr...)
 	defer func() {
 		if p := recover(); p != nil {
 			tr.Emit("panic", "why", fmt.Sprint(p))
@@ -1203,9 +1372,18 @@ func (e *c18env) runScn(sc *c18scn, s *vt.Sink) (tr *vt.Trace, err error) {
 
 		var rtpPkt *rtp.Packet
 		var rtcpPkt rtcp.Packet
+		seqp, pt := &e.seq[mi], uint8(96+mi)
+		var bc *c18bc
+		if sc.Via == c18viaBC {
+			var berr error
+			if bc, berr = e.backchannel(sc.Transport); berr != nil {
+				return tr, berr
+			}
+			seqp, pt, mi = &bc.seq, bc.pt, bc.medIdx
+		}
 		if cs.Kind == "rtp" {
-			e.seq[mi]++
-			rtpPkt, shape = c18rtp(cs.Plain, uint8(96+mi), cs.Shape, e.seq[mi], uint32(e.seq[mi])*3000, rng)
+			*seqp++
+			rtpPkt, shape = c18rtp(cs.Plain, pt, cs.Shape, *seqp, uint32(*seqp)*3000, rng)
 			plain = rtpPkt.MarshalSize()
 		} else {
 			rtcpPkt, plain, shape = c18rtcp(cs.Plain, cs.Shape, cs.Round, rng)
@@ -1256,6 +1434,15 @@ func (e *c18env) runScn(sc *c18scn, s *vt.Sink) (tr *vt.Trace, err error) {
 				call = func() error { return m.bd.Stream.WritePacketRTCP(medi, rtcpPkt) }
 			}
 		case "client":
+			if bc != nil { // a reading client's back channel
+				tap = bc.tap
+				if rtpPkt != nil {
+					call = func() error { return bc.rd.C.WritePacketRTP(bc.medi, rtpPkt) }
+				} else {
+					call = func() error { return bc.rd.C.WritePacketRTCP(bc.medi, rtcpPkt) }
+				}
+				break
+			}
 			p, perr := e.publisher(sc.Transport)
 			if perr != nil {
 				return tr, perr
@@ -1319,12 +1506,22 @@ func (e *c18env) runScn(sc *c18scn, s *vt.Sink) (tr *vt.Trace, err error) {
 				errs = errs[:80]
 			}
 		}
-		tr.Emit("write", "entry", sc.Entry, "kind", cs.Kind, "secure", sc.Secure, "max", sc.Max, "plain", plain,
+		ev := []any{"entry", sc.Entry, "kind", cs.Kind, "secure", sc.Secure, "max", sc.Max, "plain", plain,
 			"failed", failed, "nwire", len(recs), "maxwire", maxwire,
 			"tr", sc.Transport, "mki", sc.MKI, "req", cs.Plain, "shape", shape, "reqshape", cs.Shape, "round", cs.Round, "medi", mi,
-			"nudp", nudp, "ntcp", ntcp, "trunc", trunc, "maxwritten", maxwritten, "late", late, "latemax", lateMax, "err", errs)
+			"nudp", nudp, "ntcp", ntcp, "trunc", trunc, "maxwritten", maxwritten, "late", late, "latemax", lateMax, "err", errs}
+		if sc.Via != "" {
+			ev = append(ev, "via", sc.Via)
+		}
+		tr.Emit("write", ev...)
 
 		e.st.writes.Add(1)
+		if bc != nil {
+			e.st.bcWrites.Add(1)
+			if !failed && len(recs) > 0 {
+				e.st.bcSent.Add(1)
+			}
+		}
 		if sc.Entry == "multicast" {
 			e.st.mcast.Add(1)
 			if !failed && len(recs) > 0 {
@@ -1351,7 +1548,11 @@ func (e *c18env) runScn(sc *c18scn, s *vt.Sink) (tr *vt.Trace, err error) {
 			if failed == fits {
 				what = "decision"
 			}
-			e.st.addDrift(fmt.Sprintf("%s/%s/secure=%v/mki=%v/%s", sc.Entry, cs.Kind, sc.Secure, sc.MKI, what),
+			ent := sc.Entry
+			if sc.Via != "" {
+				ent += "-" + sc.Via
+			}
+			e.st.addDrift(fmt.Sprintf("%s/%s/secure=%v/mki=%v/%s", ent, cs.Kind, sc.Secure, sc.MKI, what),
 				fmt.Sprintf("max=%d plain=%d %s %s: model fits=%v wire=%d, real failed=%v nwire=%d maxwire=%d",
 					sc.Max, plain, sc.Transport, shape, fits, wire, failed, len(recs), maxwire))
 		}
